@@ -29,6 +29,14 @@ type ReplayFile struct {
 	OrigOps  int      `json:"orig_ops"`
 	History  *History `json:"history"`
 	Readable []string `json:"readable"`
+	// PrefixRuns: histories (run indices of the seeded generator, same
+	// VERIF_SEED and tier) that are executed in the same process before the
+	// history above. Only present when the violation does not show in a fresh
+	// process on its own, i.e. when something outside the container under
+	// test carries state from one container to the next.
+	PrefixRuns []int64 `json:"prefix_runs,omitempty"`
+	Seed       int64   `json:"seed,omitempty"`
+	Thorough   bool    `json:"thorough,omitempty"`
 }
 
 func writeJSON(path string, v interface{}) error {
@@ -70,7 +78,7 @@ type WSummary struct {
 	Done        int64            `json:"done"`
 	NonTrivial  []uint64         `json:"nontrivial"`
 	Probes      map[string]int   `json:"probes"`
-	Faults      [4]int           `json:"faults"`
+	Faults      [5]int           `json:"faults"`
 	SimNs       int64            `json:"sim_ns"`
 	States      []uint64         `json:"states"`
 	Ops         int64            `json:"ops"`
@@ -152,7 +160,9 @@ func workerMain(args []string) int {
 			jf.WriteAt(jb[:], 0)
 		}
 		h := cd.Gen(*seed, i, *thorough)
+		before := snapshotCatIDs()
 		o := cd.Eval(h)
+		after := snapshotCatIDs()
 		sum.Done++
 		fmt.Fprintf(lh, "%d %s\n", i, o.Fingerprint)
 		sum.Ops += int64(o.Ops)
@@ -195,16 +205,21 @@ func workerMain(args []string) int {
 			}
 			shrunk[v.Class] = true
 			min := h
+			evalFrom := func(c *History) []Violation {
+				restoreCatIDs(before)
+				return cd.Eval(c).Viol
+			}
 			if !*noshrink {
-				min = Shrink(h, *prop, v.Class, func(c *History) []Violation { return cd.Eval(c).Viol }, 3000)
+				min = Shrink(h, *prop, v.Class, evalFrom, 3000)
 			}
 			mv := v
-			for _, x := range cd.Eval(min).Viol {
+			for _, x := range evalFrom(min) {
 				if x.Class == v.Class {
 					mv = x
 					break
 				}
 			}
+			restoreCatIDs(after)
 			sum.Violations = append(sum.Violations, WViolation{Run: i, Class: v.Class, Detail: mv.Detail, Op: mv.Op, OrigOps: len(h.Ops), History: min})
 		}
 	}
@@ -242,6 +257,14 @@ func replayMain(args []string) int {
 		fmt.Printf("replaying %s class=%s (%d ops)\n", rf.Property, rf.Class, len(rf.History.Ops))
 		for _, l := range rf.History.Describe() {
 			fmt.Println("   ", l)
+		}
+	}
+	if len(rf.PrefixRuns) > 0 {
+		if !*quiet {
+			fmt.Printf("first executing %d earlier histories of seed %d in this process\n", len(rf.PrefixRuns), rf.Seed)
+		}
+		for _, r := range rf.PrefixRuns {
+			cd.Eval(cd.Gen(rf.Seed, r, rf.Thorough))
 		}
 	}
 	o := cd.Eval(rf.History)
@@ -405,9 +428,9 @@ func childReplay(path string, crashClass bool) (bool, string) {
 			return strings.Contains(out.String(), "REPRODUCED"), tail(out.String(), 1500)
 		}
 		return false, tail(out.String(), 1500)
-	case <-time.After(60 * time.Second):
+	case <-time.After(240 * time.Second):
 		cmd.Process.Kill()
-		return crashClass, "watchdog: replay did not finish within 60s"
+		return crashClass, "watchdog: replay did not finish within 240s"
 	}
 }
 
@@ -645,13 +668,47 @@ func runMain(args []string) int {
 					hits++
 				}
 			}
+			if hits == 0 && v.Run >= 0 && cl != "proc-crash" {
+				// Last resort: does it show when the histories the same worker
+				// process had executed before are executed first? Then some
+				// state outlives the container (a process-wide cache in the
+				// code under test, or the cross-container identity rule of C18).
+				const recycle = 12000
+				k := v.Run % int64(W)
+				start := k + ((v.Run-k)/(recycle*int64(W)))*(recycle*int64(W))
+				var pred []int64
+				for j := start; j < v.Run; j += int64(W) {
+					pred = append(pred, j)
+				}
+				for _, n := range []int{8, 64, 512, 4096, len(pred)} {
+					if n > len(pred) {
+						n = len(pred)
+					}
+					rf.PrefixRuns, rf.Seed, rf.Thorough = pred[len(pred)-n:], *seed, thorough
+					writeJSON(path, rf)
+					if ok3, _ := childReplay(path, false); ok3 {
+						hits = -n
+						break
+					}
+					if n == len(pred) {
+						break
+					}
+				}
+				if hits < 0 {
+					v.Detail += fmt.Sprintf(" [shows only after %d earlier histories were executed in the same process: it relates different containers (process-wide state in the code under test, or the rule of C18 that a function keeps its ID from one container to the next)]", -hits)
+					rf.Detail = v.Detail
+					writeJSON(path, rf)
+				}
+			}
 			if hits == 0 {
 				fmt.Fprintf(os.Stderr, "HARNESS ERROR: violation class %s of run %d does not replay in a fresh process:\n%s\n", cl, v.Run, out)
 				return 2
 			}
-			v.Detail += fmt.Sprintf(" [the code under test is not deterministic on this history: reproduced in %d of %d further replays]", hits, again)
-			rf.Detail = v.Detail
-			writeJSON(path, rf)
+			if hits > 0 {
+				v.Detail += fmt.Sprintf(" [the code under test is not deterministic on this history: reproduced in %d of %d further replays]", hits, again)
+				rf.Detail = v.Detail
+				writeJSON(path, rf)
+			}
 		}
 		minimised = append(minimised, map[string]interface{}{"class": cl, "run": v.Run, "orig_ops": v.OrigOps, "min_ops": len(h.Ops), "detail": v.Detail, "history": h.Describe(), "count": total.ClassCount[cl]})
 		if kf := matchKnown(known, *prop, cl, h); kf != nil {
@@ -711,7 +768,7 @@ func runMain(args []string) int {
 			"api_calls":             total.Ops,
 			"user_function_execs":   total.Execs,
 			"simulated_time_s":      float64(total.SimNs) / 1e9,
-			"faults_fired":          map[string]int{"err": total.Faults[FaultErr], "err+partial": total.Faults[FaultErrPartial], "panic": total.Faults[FaultPanic]},
+			"faults_fired":          map[string]int{"err": total.Faults[FaultErr], "err+partial": total.Faults[FaultErrPartial], "panic": total.Faults[FaultPanic], "callback-panic": total.Faults[FaultCBPanic]},
 			"twin_runs":             total.Twins,
 			"census_probes":         total.CensusOps,
 			"distinct_model_states": len(states),
